@@ -579,4 +579,40 @@ def V3.interopArr {α : Type} (a : V3 α) : ((V3 α) × (V3 α)) :=
 def V4.interopArr {α : Type} (a : V4 α) : ((V4 α) × (V4 α)) :=
   (⟨a.x, a.y, a.z, a.w⟩, ⟨a.x, a.y, a.z, a.w⟩)
 
+/-- extracted from the C++ template at T = Sym; 1 path(s) -/
+def V2.assign {α : Type} (a : V2 α) (b : V2 α) : (V2 α) :=
+  ⟨b.x, b.y⟩
+
+/-- extracted from the C++ template at T = Sym; 1 path(s) -/
+def V2.copyCtor {α : Type} (a : V2 α) : (V2 α) :=
+  ⟨a.x, a.y⟩
+
+/-- extracted from the C++ template at T = Sym; 1 path(s) -/
+def V3.assign {α : Type} (a : V3 α) (b : V3 α) : (V3 α) :=
+  ⟨b.x, b.y, b.z⟩
+
+/-- extracted from the C++ template at T = Sym; 1 path(s) -/
+def V3.copyCtor {α : Type} (a : V3 α) : (V3 α) :=
+  ⟨a.x, a.y, a.z⟩
+
+/-- extracted from the C++ template at T = Sym; 1 path(s) -/
+def V4.assign {α : Type} (a : V4 α) (b : V4 α) : (V4 α) :=
+  ⟨b.x, b.y, b.z, b.w⟩
+
+/-- extracted from the C++ template at T = Sym; 1 path(s) -/
+def V4.copyCtor {α : Type} (a : V4 α) : (V4 α) :=
+  ⟨a.x, a.y, a.z, a.w⟩
+
+/-- extracted from the C++ template at T = Sym; 1 path(s) -/
+def V2.ctorElems {α : Type} (a : V2 α) : (V2 α) :=
+  ⟨a.x, a.y⟩
+
+/-- extracted from the C++ template at T = Sym; 1 path(s) -/
+def V3.ctorElems {α : Type} (a : V3 α) : (V3 α) :=
+  ⟨a.x, a.y, a.z⟩
+
+/-- extracted from the C++ template at T = Sym; 1 path(s) -/
+def V4.ctorElems {α : Type} (a : V4 α) : (V4 α) :=
+  ⟨a.x, a.y, a.z, a.w⟩
+
 end ImathVerif.Gen
